@@ -154,4 +154,10 @@ def r08_w(ctx):
     witness_obligations(ctx, "R08.W", [('W5RawNumberNoCtor', 'RawNumber has no public constructor from arbitrary text')])
 
 
-RULES = [("R08.1", r08_1), ("R08.2", r08_2), ("R08.3", r08_3), ("R08.W", r08_w)]
+def r08_s(ctx):
+    """a raw number holds a grammatically valid number: one-fraction discipline of the validating number skipper (shared with C02)"""
+    from . import c02
+    ctx.include(c02.r02_10, 'R08.S')
+
+
+RULES = [("R08.1", r08_1), ("R08.2", r08_2), ("R08.3", r08_3), ("R08.W", r08_w), ("R08.S", r08_s)]
